@@ -241,7 +241,7 @@ class TickRateAttribute:
 
       m = TickRateAttribute._TICK_RATE_RE.match(tr)
 
-      if m is not None:
+      if m is not None and int(m.group(1)) > 0:
 
         return int(m.group(1))
 
@@ -347,7 +347,7 @@ class FrameRateAttribute:
 
       m = FrameRateAttribute._FRAME_RATE_RE.match(fr_raw)
 
-      if m is not None:
+      if m is not None and int(m.group(1)) > 0:
 
         fr = Fraction(m.group(1))
 
@@ -365,7 +365,7 @@ class FrameRateAttribute:
 
       m = FrameRateAttribute._FRAME_RATE_MULT_RE.match(frm_raw)
 
-      if m is not None:
+      if m is not None and int(m.group(1)) > 0 and int(m.group(2)) > 0:
 
         frm = Fraction(int(m.group(1)), int(m.group(2)))
 
